@@ -205,6 +205,12 @@ LockFree == UseRegLock => reglock = 0
 
 (* Register: Runtime::from_lib(library!{ const RC; let next = move || .. }) *)
 RegisterOK(send, sync) == NonSyncAllowed \/ (send /\ sync)
+(* a registered closure is called through a shared reference by every thread *)
+(* that holds a handle: a closure that needs EXCLUSIVE access to what it     *)
+(* captured (Rust: FnMut, e.g. `move || { n += 1; n }`) would be a           *)
+(* read-modify-write in two steps like the non-Sync capture, whatever the    *)
+(* captured type is; the guard accepts only closures callable while shared   *)
+RegisterFnOK(send, sync, excl) == RegisterOK(send, sync) /\ (NonSyncAllowed \/ ~excl)
 
 GBuildRt(t, o) == /\ o.op = "build_rt" /\ pc[t] = "idle" /\ o.g \notin Rts /\ LockFree
                   /\ \E s \in BOOLEAN : RegisterOK(TRUE, s) /\ (Has(o, "sync") => s = o.sync)
